@@ -221,3 +221,15 @@ m("C02", "left-assoc-operand-bare", "src/nodes/expressions/binary.rs",
   "                if self.is_left_associative() {\n                    self.precedes(left.operator())\n                } else {\n                    !left.operator().precedes(*self)\n                }",
   "                self.precedes(left.operator())",
   "C02.needs|left|binary|assoc=False,parent>child=False,child>parent=False")
+m("C14", "tab-and-cr-allowed-in-long-bracket", "src/generator/utils.rs",
+  "    !(character.is_ascii_graphic() || *character == b' ' || *character == b'\\n')",
+  "    !(character.is_ascii_graphic() || *character == b' ' || *character == b'\\n' || *character == b'\\r')",
+  "C14.bracket|needs_quoted_string|0x0D")
+m("C14", "long-bracket-not-gated", "src/generator/utils.rs",
+  "    if !value.iter().any(needs_quoted_string)\n        && value.len() >= LONG_STRING_MIN_LENGTH",
+  "    if value.len() >= LONG_STRING_MIN_LENGTH",
+  "C14.bracket|long-bracket-gated")
+m("C16", "vararg-receiver-duplicated-bare", "src/rules/remove_method_call.rs",
+  "                | Expression::VariableArguments(_)\n                | Expression::TypeCast(_)",
+  "                | Expression::TypeCast(_)",
+  "C16.receiver|")
